@@ -1186,6 +1186,17 @@ def gen_params(seed, idbase=0, nops=220, buckets=("BucketsSize", 8), bufs=None, 
         params.update(key_buf=bufs[0], val_buf=bufs[1], htx_buf=bufs[2])
     s.op("open_db", db=0, dir="d")
     s.op("map", h=1, db=0, name="m", kt=kt, params=params)
+    nbk = layout_buckets(buckets)
+    if kt in ("bytes", "string") and 16 <= nbk <= 65536 and nbk & (nbk - 1) == 0:
+        # in the still empty table: two keys in one bucket, the newer one deleted, a traversal - whatever the table
+        # keeps per bucket next to the chain head must survive the delete of the head, for every table size
+        ka, kb = s.key_in_bucket(9, nbk, 3), s.key_in_bucket(10, nbk, 3)
+        s.op("put", h=1, k=ka, v=vids[0])
+        s.op("put", h=1, k=kb, v=vids[1])
+        s.op("del", h=1, k=kb)
+        s.op("iter", h=1, flavour=FLAVOURS[seed % len(FLAVOURS)])
+        s.op("get", h=1, k=ka)
+        s.op("del", h=1, k=ka)
     for i in range(nops):
         r = rng.random()
         k = rng.choice(keys)
@@ -1193,6 +1204,10 @@ def gen_params(seed, idbase=0, nops=220, buckets=("BucketsSize", 8), bufs=None, 
             s.op("put", h=1, k=k, v=rng.choice(vids))
         elif r < 0.7:
             s.op("del", h=1, k=k)
+            if i % 3 == 0:
+                # a traversal right after a delete (what the delete did to the table's bookkeeping must not depend on
+                # the table size); the flavour is chosen without drawing from the history's generator
+                s.op("iter", h=1, flavour=FLAVOURS[i % len(FLAVOURS)])
         elif r < 0.88:
             s.op("get", h=1, k=k)
         elif r < 0.93:
